@@ -27,6 +27,12 @@ type Scenario[E any] struct {
 	MaxStates int // 0 = unlimited; hitting it marks the run non-exhaustive
 	// Expand, if set, may veto expanding a state (e.g. terminal states).
 	Expand func(h []E) bool
+	// NoMergeDepth: states reached by histories of at most this length are never merged, i.e. EVERY history of
+	// length <= NoMergeDepth+1 is executed. The canonical key is an abstraction that is argued sound for the
+	// code as it is (merged states have the same futures); an implementation that carries extra hidden state
+	// (a stale memo, a remembered time stamp) could differ between two histories the key merges. Short histories
+	// therefore do not depend on the abstraction at all.
+	NoMergeDepth int
 }
 
 type Stats struct {
@@ -122,7 +128,7 @@ func Explore[E any](r *ev.Run, sc Scenario[E]) Stats {
 			}
 			r.Distinct("distinct_outcomes", sc.Name+"|"+j.outcome)
 			if j.canon != "" {
-				if _, ok := seen[j.canon]; ok {
+				if _, ok := seen[j.canon]; ok && depth > sc.NoMergeDepth {
 					continue
 				}
 				seen[j.canon] = struct{}{}
@@ -154,5 +160,8 @@ func Explore[E any](r *ev.Run, sc Scenario[E]) Stats {
 	r.Add("transitions", int64(st.Transitions))
 	r.Set("depth_completed_"+sc.Name, st.DepthCompleted)
 	r.Set("depth_bound_"+sc.Name, sc.MaxDepth)
+	if sc.NoMergeDepth > 0 {
+		r.Set("every_history_executed_up_to_length_"+sc.Name, min(sc.NoMergeDepth+1, st.DepthCompleted))
+	}
 	return st
 }
